@@ -5,3 +5,4 @@ import XvcPipeline.Sched
 import XvcPipeline.Inv
 import XvcPipeline.Props.C10
 import XvcPipeline.Props.C13
+import XvcPipeline.Graph
